@@ -415,6 +415,8 @@ def shard(ctx: Ctx, sh: int, nshards: int, n: int) -> Stats:
             unreadable_cases(st, root)
         if sh == 2 % nshards:
             overlapping_requests(st, root)
+        if sh == 3 % nshards:
+            twin_cases(st, root)
 
         def one(case):
             if not case["requests"]:
@@ -471,6 +473,48 @@ def unreadable_cases(st: Stats, root: str):
                 st.fail(f"C18:unlisted:changes-on-unreadable-file-rewrote-it:{via}", {"unreadable": name, "via": via},
                         f"changes request on a file that cannot be read ({name}) {'reported success' if ok else 'failed'} and the file now holds {after[:160]!r} "
                         f"(before: {data[:160]!r}): every key the request did not name is gone")
+
+
+# ---------------------------------------------------------------------------------------------- generator (3b): values equal under ==
+TWIN_OLD = ["1", "0", "1.0", "0.0", "true", "false", "2", "2.0", '"1"', '"true"']
+TWIN_NEW = [True, False, 1, 0, 1.0, 0.0, 2, 2.0, "1", "true"]
+
+
+def twin_cases(st: Stats, root: str):
+    """A request that names a key with a value of another type that Python compares equal to the stored one (1 / true / 1.0,
+    0 / false / 0.0, also text "1" over 1): "a value sets it" - the key must read back with the requested type, whatever else
+    the request holds (nothing else, here)."""
+    import json as _json
+
+    from octave_mcp.core.parser import parse as _parse
+
+    for old in TWIN_OLD:
+        for new in TWIN_NEW:
+            for site in ("K", "META.X", "BOTH"):
+                for via in ("tool", "cli"):
+                    case = {"twin": [old, repr(new), site, via]}
+                    p = os.path.join(root, "twin.oct.md")
+                    with open(p, "w", encoding="utf-8") as fh:
+                        fh.write(f"===D===\nMETA:\n  TYPE::T\n  X::{old}\nK::{old}\nOTHER::keep\n===END===\n")
+                    changes = {"K": new, "META.X": new} if site == "BOTH" else {site: new}
+                    try:
+                        if via == "cli":
+                            code, out_, err_, exc = tools.cli(["write", p, "--changes", _json.dumps(changes)])
+                            ok = code == 0 and exc is None
+                        else:
+                            ok = tools.write(target_path=p, changes=changes).get("status") == "success"
+                        doc = _parse(open(p, encoding="utf-8").read())
+                    except Exception as e:  # noqa: BLE001
+                        st.fail(f"C18:unlisted:twin-value-request-failed:{via}", case, f"changes {changes!r} over {old}: {e!r}")
+                        continue
+                    got = {"K": next((n.value for n in doc.sections if getattr(n, "key", None) == "K"), "<absent>"), "META.X": doc.meta.get("X", "<absent>")}
+                    st.case(case, nontrivial=True, labels=["twin_values"], key=(old, repr(new), site, via))
+                    for k in changes:
+                        g = got[k]
+                        if not ok or type(g) is not type(new) or g != new:
+                            st.fail(f"C18:unlisted:value-request-not-applied:{via}", case,
+                                    f"changes {changes!r} on a file holding {k}::{old}: {'success' if ok else 'failure'} and {k} reads back as {g!r} ({type(g).__name__}), "
+                                    f"requested {new!r} ({type(new).__name__})")
 
 
 # ---------------------------------------------------------------------------------------------- generator (4): requests in flight together
@@ -589,6 +633,11 @@ def check_case(case) -> list[Failure]:
         st = Stats()
         with scratch_dir() as root:
             overlapping_requests(st, root)
+        return [f for fl in st.failures.values() for f in fl if f.case == case]
+    if "twin" in case:
+        st = Stats()
+        with scratch_dir() as root:
+            twin_cases(st, root)
         return [f for fl in st.failures.values() for f in fl if f.case == case]
     if "unreadable" in case:
         st = Stats()
